@@ -71,6 +71,24 @@ def step (s : State) (toks : List String) : State × String :=
       | .invalid => (s, "invalid")
       | .panic => (s, "panic")
     | none => (s, "bad-op")
+  | ["rt", t] =>
+    match t.toNat? with
+    | some t =>
+      match fromStr (display t) with
+      | .ok t => (s, s!"ok {t}")
+      | .invalid => (s, "invalid")
+      | .panic => (s, "panic")
+    | none => (s, "bad-op")
+  | ["newf", a, b, c, d] =>
+    match a.toNat?, b.toNat?, c.toNat?, d.toNat? with
+    | some secs, some frac, some k, some n =>
+      if k < 65536 ∧ n < 256 ∧ frac < 256 ∧ secs < 18446744073709551616 then
+        if secs + (frac * 4) / 1000 > 18446744073709551616 - 1 then (s, "panic")
+        else match new? (partsAsDuration secs frac) k n with
+          | some t => (s, s!"{seconds t} {fractional t} {counter t} {node t} {t}")
+          | none => (s, "panic")
+      else (s, "bad-op")
+    | _, _, _, _ => (s, "bad-op")
   | ["cmp", a, b] =>
     match a.toNat?, b.toNat? with
     | some a, some b => (s, cmpStr a b)
